@@ -35,6 +35,8 @@ EXTERNAL_RAISES = {
     "urllib.parse.urldefrag": ["builtins.ValueError"],
     "urllib.request.urlunparse": [],
     "socket.inet_pton": ["builtins.OSError"],
+    # a duration outside datetime's range, or an infinite component
+    "datetime.timedelta": ["builtins.OverflowError"],
     "locale.setlocale": ["locale.Error"],
     # ImportError for a name that cannot be imported; ValueError for the
     # empty name ("Empty module name")
